@@ -17,7 +17,18 @@ type Config struct {
 	E      int8   // cursor(step start) - position of the last End/single event, clipped to [.,4]; 4 = far/none
 	Replay string // bytes that are fed next (after a rewind the just-read bytes are read again)
 	Prev   byte   // the byte before the cursor, as far as guards care: a guard constant, prevOther or prevUnknown
+	Phase  uint8  // (only with grammar tracking) what the current directive has shown so far, see phase* constants
 }
+
+// Phases of the per-directive lexeme grammar  Keyword Parameter* Annotation? ContextOpen? Body?
+const (
+	phaseNone uint8 = iota // before the first keyword / after a ContextClose
+	phaseKeyword
+	phaseParams
+	phaseAnnotation
+	phaseOpen
+	phaseBody
+)
 
 const (
 	prevUnknown byte = 0xFE
@@ -70,6 +81,7 @@ type explorer struct {
 	reps     []byte
 	guardK   map[byte]bool
 	extMin   map[string]int
+	grammar  bool
 }
 
 // ByteClasses partitions 0..255: two bytes are equivalent iff every state has the
@@ -223,6 +235,7 @@ func (ex *explorer) apply(c Config, id int, fn string, b int, depth int, wAcc in
 		stack := c.Stack
 		trunc := c.Trunc
 		open, d, e := c.Open, int(c.D), int(c.E)
+		phase := c.Phase
 		bad := false
 		for _, ef := range o.Effs {
 			switch ef.K {
@@ -279,7 +292,13 @@ func (ex *explorer) apply(c Config, id int, fn string, b int, depth int, wAcc in
 					open = ""
 					d = 0
 					e = -ef.Off
+					if ex.grammar {
+						phase = ex.grammarStep(phase, k, fn, c, id)
+					}
 				case kind == "single":
+					if ex.grammar {
+						phase = ex.grammarStep(phase, ef.Ev, fn, c, id)
+					}
 					if open != "" {
 						ex.report("bracket", fmt.Sprintf("%s in %s while %s is open", ef.Ev, fn, open), "a single event occurs inside an open lexeme", c, id)
 					}
@@ -302,7 +321,7 @@ func (ex *explorer) apply(c Config, id int, fn string, b int, depth int, wAcc in
 			continue
 		}
 		w := o.Weight()
-		nc := Config{St: stepVar, Stack: stack, Trunc: trunc, Open: open}
+		nc := Config{St: stepVar, Stack: stack, Trunc: trunc, Open: open, Phase: phase}
 		if o.Term == TPopped {
 			if depth > 8 {
 				ex.report("undecided", "delegation chain through popped states longer than 8 in "+fn, "possible unbounded recursion through popped states on one byte", c, id)
@@ -385,9 +404,56 @@ func guardsHold(gs []Guard, prev byte) bool {
 	return true
 }
 
+// grammarStep advances the per-directive grammar on a completed lexeme of the given kind (or a single event).
+func (ex *explorer) grammarStep(phase uint8, kind, fn string, c Config, id int) uint8 {
+	bad := func(what string) {
+		ex.report("grammar", fmt.Sprintf("%s in %s after %s", what, fn, phaseName(phase)), "the lexemes of one directive do not follow Keyword Parameter* Annotation? ContextOpen? Body?", c, id)
+	}
+	switch kind {
+	case "Keyword":
+		return phaseKeyword
+	case "Parameter":
+		if phase != phaseKeyword && phase != phaseParams {
+			bad("Parameter")
+		}
+		return phaseParams
+	case "Annotation":
+		if phase != phaseKeyword && phase != phaseParams {
+			bad("Annotation")
+		}
+		return phaseAnnotation
+	case "ContextOpen":
+		if phase == phaseNone || phase == phaseOpen || phase == phaseBody {
+			bad("ContextOpen")
+		}
+		return phaseOpen
+	case "ContextClose":
+		return phaseNone
+	case "Schema", "Text", "Enum":
+		if phase == phaseNone || phase == phaseBody {
+			bad("Body (" + kind + ")")
+		}
+		return phaseBody
+	}
+	return phase
+}
+
+func phaseName(p uint8) string {
+	return [...]string{"nothing (no directive open)", "the keyword", "a parameter", "the annotation", "the opening parenthesis", "the body"}[p]
+}
+
+// AnalyseGrammar is Analyse with the per-directive lexeme grammar tracked in the configurations (more configurations).
+func (m *Machine) AnalyseGrammar(k int) *Analysis {
+	return m.analyse(k, false, true)
+}
+
 // Analyse explores all reachable abstract configurations.
 func (m *Machine) Analyse(k int, pessimisticNul bool) *Analysis {
-	ex := &explorer{m: m, k: k, nulOrd: pessimisticNul || !m.NulGuard, seen: map[Config]int{}, finds: map[string]Finding{},
+	return m.analyse(k, pessimisticNul, false)
+}
+
+func (m *Machine) analyse(k int, pessimisticNul bool, grammar bool) *Analysis {
+	ex := &explorer{grammar: grammar, m: m, k: k, nulOrd: pessimisticNul || !m.NulGuard, seen: map[Config]int{}, finds: map[string]Finding{},
 		edges: map[[2]int]int{}, pred: m.predBytes()}
 	ex.rep, ex.reps = m.ByteClasses()
 	ex.guardK, ex.extMin = map[byte]bool{}, map[string]int{}
